@@ -6,7 +6,7 @@ Require Import Fggs.Model.Replace Fggs.Proofs.Replace_base Fggs.Proofs.Replace_w
 Fixpoint copies (nx : nat) (vs : list node) : list node :=
   match vs with [] => [] | v :: vs => mkNode (Fresh nx) (n_label v) :: copies (S nx) vs end.
 Definition add_nodes (g : graph) (ns : list node) : graph :=
-  mkGraph (g_nodes g ++ ns) (g_edges g) (g_ext g) (g_elabs g).
+  mkGraph (g_nodes g ++ ns) (g_edges g) (g_ext g) (g_elabs g) (add_nlabs (g_nlabs g) (map n_label ns)).
 Definition gn (nm : nmap) (v : node) : node := match aget node_eqb nm v with Some g => g | None => v end.
 Fixpoint ecopies (nm : nmap) (nx : nat) (res : list edge) : list edge :=
   match res with
@@ -16,7 +16,7 @@ Fixpoint ecopies (nm : nmap) (nx : nat) (res : list edge) : list edge :=
 Definition tbl_add (tbl : list elabel) (l : elabel) : list elabel :=
   match find_label tbl (l_name l) with Some _ => tbl | None => tbl ++ [l] end.
 Definition add_edges (g : graph) (es : list edge) (tbl : list elabel) : graph :=
-  mkGraph (g_nodes g) (g_edges g ++ es) (g_ext g) tbl.
+  mkGraph (g_nodes g) (g_edges g ++ es) (g_ext g) tbl (g_nlabs g).
 
 Lemma copies_length : forall vs nx, length (copies nx vs) = length vs.
 Proof. induction vs; simpl; intros; auto. Qed.
@@ -109,7 +109,8 @@ Proof.
         assert (node_eqb v u = false). { apply (eqb_false_gen node_eqb node_eqb_eq). intro; subst; auto. }
         rewrite H. rewrite orb_false_r; auto. }
       rewrite F. f_equal; [f_equal|].
-      * unfold add_nodes, push_node; simpl. rewrite <- app_assoc; auto.
+      * unfold add_nodes, push_node; cbn [g_nodes g_edges g_ext g_elabs g_nlabs copies map n_label].
+        rewrite <- app_assoc. unfold add_nlabs. reflexivity.
       * lia.
       * rewrite <- app_assoc; auto.
 Qed.
